@@ -98,6 +98,12 @@ class chunks(object):
                 raMinTmp = 0.0
                 raMaxTmp = 360.0
                 raRangeTmp = 360.0
+                #
+                # The chunks now share 360 degrees; there must not be so many
+                # that they become narrower than raSize, since the margin
+                # reaches across the 0/360 point into one neighbour only.
+                #
+                self.nRa[i] = max(1, min(self.nRa[i], int(np.floor(360.0/raSize))))
             if self.decBounds[i] == -90.0 or self.decBounds[i+1] == 90.0:
                 self.nRa[i] = 1
             self.raBounds.append(raMinTmp +
